@@ -76,7 +76,7 @@ def havoc_value(eng, ctx, name, v, kinds):
             ctx.assume(n >= 0)
             return ctx.alloc('list', PySeq([View(arr, z3.IntVal(0), n)], 'list'))
         if h.kind == 'map' and isinstance(h.data, SV):
-            return ctx.alloc('map', SV.fresh(h.data.ty, 'h_' + name))
+            return ctx.alloc('map', SV.fresh(h.data.ty, 'h_' + name), alias_of=h.alias_of)     # still (possibly) the live view it was
         if h.kind == 'map' and isinstance(h.data, dict) and not h.data:
             return ctx.alloc('map', SV.fresh(MapT(Leaf('V')), 'h_' + name))
     if isinstance(v, PySeq):
